@@ -445,7 +445,7 @@ def phase_fraction(feed, IDs, K, phi=None, top_chemicals=None,
     """
     mol = feed.imol[IDs]
     F_mol = mol.sum()
-    Fa = feed.imol[top_chemicals].sum() if top_chemicals else 0.
+    Fa = np.sum(feed.imol[top_chemicals]) if top_chemicals else 0.
     if bottom_chemicals:
         bottom_flows = feed.imol[bottom_chemicals]
         Fb = bottom_flows.sum() if hasattr(bottom_flows, 'sum') else bottom_flows
